@@ -228,6 +228,8 @@ impl<W, R, T> Runtime<W, R, T> {
                 site: std::panic::Location::caller(),
             });
             if usize::from(stats.size) > max_size {
+                // the value is never created, so nothing will ever give these bytes back
+                stats.size -= size;
                 Err(RuntimeViolation::AllocationLimitReached)
             } else {
                 Ok(size)
